@@ -133,6 +133,9 @@ func (Area) Exec(input string) string {
 	if strings.HasPrefix(input, "pipe ") {
 		return pipeExec(input)
 	}
+	if strings.HasPrefix(input, "nf ") {
+		return nfExec(input)
+	}
 	c := decCase(input)
 	installHook()
 	t := newTarget(c)
